@@ -385,13 +385,13 @@ fn run(ctx: &Ctx) {
     let plans = [
         GenPlan {
             gen: "mutant",
-            cases: ctx.tier.pick(24_000, 1_500_000),
+            cases: ctx.tier.pick(80_000, 3_000_000),
             min_len: 25,
             max_len: ctx.tier.pick(1200, 4000),
         },
         GenPlan {
             gen: "bytes",
-            cases: ctx.tier.pick(6_000, 500_000),
+            cases: ctx.tier.pick(20_000, 1_000_000),
             min_len: 0,
             max_len: 200,
         },
